@@ -34,7 +34,7 @@ def run(ctx, prop, n=None):
         scf = os.path.join(ctx.work, "scenario.ndjson")
         core.write_ndjson(scf, [sc])
         env["VERIF_SCENARIOS"] = scf
-    rc, o = ctx.go_test("./dprod/", run="TestScenarios", env=env, tags="verif,synctests", timeout=1500)
+    rc, o = ctx.go_test("./dprod/", run="TestScenarios", env=env, tags="verif,synctests", timeout=600)
     rows = core.read_ndjson(out) if os.path.exists(out) else []
     stats = [r for r in ctx.go_results(o) if r.get("kind") == "stat"]
     crashed = not stats
